@@ -273,16 +273,31 @@ PROLOGUES = [
 ]
 
 
+def generated_contents(k):
+    """`k` more contents for the exhaustive tier: drawing programs from a fixed stream (independent of --seed)."""
+    global rng
+    saved = rng
+    rng = random.Random(4242)
+    out = []
+    for i in range(k):
+        h = Hist(3, 6)
+        h.draw(rng.randint(3, 8), wide_ok=(i % 3 == 0))
+        out.append(h.ops[1:])
+    rng = saved
+    return out
+
+
 def exhaustive():
     out = []
     n = 0
     L, C = 3, 6
     rects = [(t, l, nn, c) for nn in range(1, L + 1) for t in range(0, L - nn + 1)
              for c in range(1, C + 1) for l in range(0, C - c + 1)]
-    for ci, content in enumerate(CONTENTS):
-        for pi, pro in enumerate(PROLOGUES):
-            if pi and ci % 2 == 0 and ci:      # keep the product affordable: every prologue on half of the contents
-                continue
+    contents = CONTENTS + generated_contents(24)
+    for ci, content in enumerate(contents):
+        # every content: neutral state (copy and move) and one of the auxiliary prologues (copy)
+        for pi in (0, 1 + ci % (len(PROLOGUES) - 1)):
+            pro = PROLOGUES[pi]
             for (t, l, nn, c) in rects:
                 for dt in range(0, L - nn + 1):
                     for dl in range(0, C - c + 1):
@@ -298,15 +313,16 @@ def exhaustive():
                             n += 1
                             cls = "identity" if (dt, dl) == (t, l) else ("same-line" if dt == t else "other-line")
                             classes[cls] += 1
+    stats.clear()
     for op in out:
         stats[op.split()[0]] += 1
-    return out, n
+    return out, n, len(contents)
 
 
 lines = []
 if a.tier == "exhaustive":
-    lines, n = exhaustive()
-    info = {"histories": n, "exhaustive_bound": "3x6 buffer: %d contents x up to %d auxiliary prologues x every source rectangle x every destination position inside the buffer, copy and move" % (len(CONTENTS), len(PROLOGUES))}
+    lines, n, nc = exhaustive()
+    info = {"histories": n, "exhaustive_bound": "3x6 buffer: %d contents (8 hand-made, the rest from a fixed stream) x {neutral state: copy and move; one auxiliary prologue: copy} x every source rectangle (126) x every destination position that keeps it inside the buffer (1274 pairs)" % nc}
 else:
     N = 2600 if a.tier == "quick" else 12000
     for _ in range(N):
